@@ -3,7 +3,7 @@
 //! project has no new error diagnostics and runs exactly as before (per-cycle outcomes and a names-free digest of all values);
 //! the edits are well-formed (disjoint, each replaces an occurrence of the old name by the new name).
 //! Not renamed here (recorded findings of C16, each with its own probe in checks/c16.py): names declared as VAR_INPUT / VAR_OUTPUT /
-//! VAR_IN_OUT parameters, enumeration types and values (used as Type#Value), STRUCT fields.
+//! VAR_IN_OUT parameters, enumeration types and values (used as Type#Value).
 //!   rnsweep <srcdir> <out> <per-file>      for every <srcdir>/*.st: <per-file> renames at random identifier occurrences
 //! line: <file> <offset> <old> <new> : refused | e<edits_ok> d<diag_same> b<behaviour_same>    (ERROR … for a panic)
 use std::io::Write;
@@ -111,7 +111,7 @@ fn main() {
                 }
                 if toks[i].kind == TokenKind::RParen && mode == 3 { mode = 0; }
                 if toks[i].kind == TokenKind::Ident {
-                    let declared = (mode == 1 || mode == 2) && i + 1 < toks.len() && (toks[i + 1].kind == TokenKind::Colon || toks[i + 1].kind == TokenKind::Comma);
+                    let declared = mode == 1 && i + 1 < toks.len() && (toks[i + 1].kind == TokenKind::Colon || toks[i + 1].kind == TokenKind::Comma);
                     if declared || mode == 3 { excluded.insert(t.to_ascii_lowercase()); }
                 }
                 i += 1;
